@@ -1011,7 +1011,12 @@ class EG:
 
     def mline(self):
         z = self.c()
-        return {"t": "MLINE", "a": {}, "pts": [self.p2() + [z] for _ in range(self.r.randint(2, 4))]}
+        x = self.c()
+        pts = []
+        for _ in range(self.r.randint(2, 4)):  # strictly increasing x: no 180 degree turns (MLINE cannot mitre them)
+            x += self.r.choice([0.5, 1.0, 3.25])
+            pts.append([x, self.c(), z])
+        return {"t": "MLINE", "a": {}, "pts": pts}
 
     def mesh(self):
         return {"t": "MESH", "a": {}, "pts": [self.p3() for _ in range(5)], "faces": [[0, 1, 2], [2, 3, 4]]}
@@ -1688,7 +1693,7 @@ def oracle(ctx):
         for api in ("transform", "inplace", "copies"):
             run_entity_case(world, rc, mr, api, fails, stats)
             ctx.count("O1 entity.transform / inplace / copies", (api, _hash(rc), _hash(mr)), True)
-    per = ctx.n(60, 700)
+    per = ctx.n(200, 900)
     for name in ENTITY_GENS:
         for _ in range(per):
             rc = _gen_entity(eg, name)
@@ -1708,7 +1713,7 @@ def oracle(ctx):
     eg = EG(rng)
     world = World()
     for name in EXACT_GENS:
-        for _ in range(ctx.n(40, 500)):
+        for _ in range(ctx.n(120, 800)):
             rc = _gen_entity(eg, name)
             rc.get("a", {}).pop("thickness", None)
             mr = dyadic_matrix(rng)
@@ -1720,7 +1725,7 @@ def oracle(ctx):
     # ---- O3 nested block references
     fails, stats = [], {}
     rng = ctx.rng("nested")
-    docs = corpus_nested() + [gen_nested(rng, clean=(i % 2 == 0)) for i in range(ctx.n(300, 4000))]
+    docs = corpus_nested() + [gen_nested(rng, clean=(i % 2 == 0)) for i in range(ctx.n(800, 6000))]
     for rec in docs:
         for how in ("virtual", "explode"):
             run_nested_case(rec, fails, stats, how)
@@ -1735,7 +1740,7 @@ def oracle(ctx):
     eg = EG(rng)
     world = World()
     for name in UPRIGHT_TYPES:
-        for i in range(ctx.n(60, 600)):
+        for i in range(ctx.n(150, 900)):
             rc = _gen_entity(eg, name)
             if i % 3 != 2 and rc["t"] != "ELLIPSE":
                 rc["a"]["extrusion"] = [0.0, 0.0, -1.0]
@@ -1771,9 +1776,448 @@ def replay(ctx, rep):
     return True, "property holds on this input"
 
 
+# ================================================================================================ regenerate (T-ast)
+TT = "src/ezdxf/math/transformtools.py"
+KSRC = ["src/ezdxf/math/_vector.py", "src/ezdxf/math/_matrix44.py", "src/ezdxf/math/ucs.py", "src/ezdxf/math/construct2d.py"]
+CORE = "#after-ocs"
+
+
+def _split_after_ocs(src: str) -> str:
+    """transform_extrusion(extrusion, m) builds `ocs = OCS(extrusion)` first (a constructor with three square roots that
+    property C11 treats); the kernel translated here is the REST of the body with `ocs` as parameter.  The rewrite is
+    mechanical (drop the first statement, rename the parameter) and refuses anything else."""
+    import ast
+    from translate.py2lean import Unsupported
+    tree = ast.parse(src)
+    done = False
+    for n in tree.body:
+        if isinstance(n, ast.FunctionDef) and n.name == "transform_extrusion":
+            body = [st for st in n.body if not (isinstance(st, ast.Expr) and isinstance(st.value, ast.Constant))]
+            if not body or ast.unparse(body[0]) != "ocs = OCS(extrusion)" or [a.arg for a in n.args.args] != ["extrusion", "m"]:
+                raise Unsupported("transform_extrusion no longer starts with `ocs = OCS(extrusion)`: the model must be revisited")
+            n.body = body[1:]
+            n.args.args[0].arg = "ocs"
+            n.args.args[0].annotation = None
+            done = True
+    if not done:
+        raise Unsupported("transform_extrusion not found in transformtools.py")
+    return ast.unparse(tree)
+
+
+ICS = "#ics-scales"
+
+
+def _split_ics(src: str) -> str:
+    """InsertCoordinateSystem.transform(m, tol): the translated kernel is the body between `ocs = OCS(self.extrusion)`
+    (becomes the parameter `ocs`) and the construction of the result (`OCSTransform.from_ocs(...)`, which needs OCS(uz) and
+    atan2): it returns (x_scale, y_scale, z_scale, uz).  `raise InsertTransformationError` is mapped to ValueError (the
+    modelled error enum); any other shape of the function is refused."""
+    import ast
+    from translate.py2lean import Unsupported
+    tree = ast.parse(src)
+    done = False
+    for c in tree.body:
+        if isinstance(c, ast.ClassDef) and c.name == "InsertCoordinateSystem":
+            for n in c.body:
+                if isinstance(n, ast.FunctionDef) and n.name == "transform":
+                    body = [st for st in n.body if not (isinstance(st, ast.Expr) and isinstance(st.value, ast.Constant))]
+                    ok = (len(body) > 3 and ast.unparse(body[0]) == "ocs = OCS(self.extrusion)"
+                          and ast.unparse(body[-2]) == "ocs_transform = OCSTransform.from_ocs(OCS(self.extrusion), OCS(uz), m)"
+                          and isinstance(body[-1], ast.Return)
+                          and ast.unparse(body[-1].value).replace(" ", "").startswith("InsertCoordinateSystem(insert=ocs_transform.transform_vertex(self.insert),scale=(x_scale,y_scale,z_scale),rotation=ocs_transform.transform_deg_angle(self.rotation),extrusion=uz"))
+                    if not ok:
+                        raise Unsupported("InsertCoordinateSystem.transform changed its shape: the model must be revisited")
+                    new = body[1:-2] + [ast.parse("return (x_scale, y_scale, z_scale, uz)").body[0]]
+                    for st in ast.walk(ast.Module(body=new, type_ignores=[])):
+                        if isinstance(st, ast.Raise):
+                            if not ast.unparse(st.exc).startswith("InsertTransformationError"):
+                                raise Unsupported("unexpected raise in InsertCoordinateSystem.transform")
+                            st.exc = ast.parse("ValueError()").body[0].value
+                    n.body = new
+                    n.args.args = [n.args.args[0], ast.arg("ocs")] + n.args.args[1:]
+                    n.args.defaults = []
+                    done = True
+    if not done:
+        raise Unsupported("InsertCoordinateSystem.transform not found")
+    return ast.unparse(tree)
+
+
+def kernel_defs(read):
+    from translate.py2lean import Program, translate
+
+    def rd(rel):
+        if rel.endswith(CORE):
+            return _split_after_ocs(read(rel[: -len(CORE)]))
+        if rel.endswith(ICS):
+            return _split_ics(read(rel[: -len(ICS)]))
+        return read(rel)
+
+    prog = Program(rd)
+    prog.link("ezdxf.math", KSRC)
+    ocs = lambda: ("obj", "OCS", {"transform": "bool", "matrix": "m44"})  # noqa: E731
+    ot = ("self", ("obj", "OCSTransform", {"m": "m44", "old_ocs": ocs(), "new_ocs": ocs()}))
+    M = ("self", "m44", "m")
+    ks = [
+        ("mTransform", KSRC[1], "Matrix44.transform", [M, ("vector", "v3", "v")]),
+        ("mTransformDirection", KSRC[1], "Matrix44.transform_direction", [M, ("vector", "v3", "v")]),
+        ("ocsToWcs", KSRC[2], "OCS.to_wcs", [("self", ocs()), ("point", "v3", "p")]),
+        ("ocsFromWcs", KSRC[2], "OCS.from_wcs", [("self", ocs()), ("point", "v3", "p")]),
+        ("otVertex", TT, "OCSTransform.transform_vertex", [ot, ("vertex", "v3", "v")]),
+        ("ot2dVertex", TT, "OCSTransform.transform_2d_vertex", [ot, ("vertex", "v2", "v"), ("elevation", "rat")]),
+        ("otDirection", TT, "OCSTransform.transform_direction", [ot, ("direction", "v3", "v")]),
+        ("otOcsDirection", TT, "OCSTransform.transform_ocs_direction", [ot, ("direction", "v3", "v")]),
+        ("otThickness", TT, "OCSTransform.transform_thickness", [ot, ("thickness", "rat")]),
+        ("otLength", TT, "OCSTransform.transform_length", [ot, ("length", "v3", "v")]),
+        ("otLengthR", TT, "OCSTransform.transform_length", [ot, ("length", "v3", "v"), ("reflection", "rat")]),
+        ("otWidth", TT, "OCSTransform.transform_width", [ot, ("width", "rat")]),
+        ("extrusionCore", TT + CORE, "transform_extrusion", [("ocs", ocs()), ("m", "m44")]),
+        ("icsScales", TT + ICS, "InsertCoordinateSystem.transform",
+         [("self", ("obj", "InsertCoordinateSystem", {"scale_factor_x": "rat", "scale_factor_y": "rat", "scale_factor_z": "rat"})),
+          ("ocs", ocs()), ("m", "m44"), ("tol", "rat")]),
+    ]
+    return [translate(prog, path, q, ps, lean_name=nm, max_paths=256) for nm, path, q, ps in ks]
+
+
 def regenerate(ctx):
-    pass
+    from translate.py2lean import lean_file
+    defs = kernel_defs(ctx.src)
+    extra = "".join(d.sqrt_wrapper() + "\n" for d in defs if d.sqrt_params)
+    ctx.write_gen("TransformKernels", lean_file("EzdxfVerif.Gen.TransformKernels", defs, extra=extra), [TT] + KSRC)
+
+
+# ================================================================================================ correspondence
+def fr(x) -> str:
+    f = Fr(float(x))
+    return str(f.numerator) if f.denominator == 1 else f"{f.numerator}/{f.denominator}"
+
+
+def frs(xs) -> str:
+    return ",".join(fr(x) for x in xs)
+
+
+def ocs_str(o) -> str:
+    return ("T," if o.transform else "F,") + frs(list(o.matrix) if o.transform else mat16(IDENT))
+
+
+def mk_ocs(t, m16):
+    from ezdxf.math import OCS, Matrix44
+    o = OCS()
+    o.transform = bool(t)
+    o.matrix = Matrix44(m16)
+    return o
+
+
+def ok(*fields) -> str:
+    out = []
+    for f in fields:
+        if f is None:
+            out.append("n")
+        elif isinstance(f, (int, float)):
+            out.append(fr(f))
+        else:
+            out.append(frs(f))
+    return "ok " + ";".join(out)
+
+
+FRAMES = [
+    (False, mat16(IDENT)),
+    (True, [-1.0, 0, 0, 0, 0, 1.0, 0, 0, 0, 0, -1.0, 0, 0, 0, 0, 1.0]),
+    (True, [0, 1.0, 0, 0, 0, 0, 1.0, 0, 1.0, 0, 0, 0, 0, 0, 0, 1.0]),
+    (True, [0.6, 0.8, 0, 0, -0.8, 0.6, 0, 0, 0, 0, 1.0, 0, 0, 0, 0, 1.0]),
+    (True, [0.28, 0.96, 0, 0, 0, 0, 1.0, 0, 0.96, -0.28, 0, 0, 0, 0, 0, 1.0]),
+]
+
+
+def _dy(r, e=0):
+    return r.randint(-64, 64) / 8.0 * 2.0 ** e
+
+
+def _dyadic_affine(r):
+    m = [float(r.randint(-16, 16)) / 4.0 for _ in range(16)]
+    m[3] = m[7] = m[11] = 0.0
+    m[15] = 1.0
+    return m
+
+
+def _corr_frame(r):
+    if r.random() < 0.8:
+        return r.choice(FRAMES)
+    m = _dyadic_affine(r)  # the kernels are plain arithmetic: also checked on frames that are not orthonormal
+    m[12] = m[13] = m[14] = 0.0
+    return (True, m)
+
+
+def corr_kernels(ctx):
+    from ezdxf.math import Matrix44, Vec3, Vec2
+    from ezdxf.math.transformtools import OCSTransform
+    r = ctx.rng("corr/kernels")
+    mg = MG(r)
+    out = []
+    for _ in range(ctx.n(1000, 8000)):
+        m16 = _dyadic_affine(r) if r.random() < 0.6 else mat16(build_matrix(mg.affine() if r.random() < 0.5 else mg.similarity()))
+        (t1, f1), (t2, f2) = _corr_frame(r), _corr_frame(r)
+        ot = OCSTransform.from_ocs(mk_ocs(t1, f1), mk_ocs(t2, f2), Matrix44(m16))
+        v = (_dy(r), _dy(r), _dy(r))
+        kind = r.choice(["vertex", "dir", "thick", "len", "lenr", "width", "v2d"])
+        x, y = frs(v), ""
+        if kind == "vertex":
+            val = ok(ot.transform_vertex(Vec3(v)))
+        elif kind == "dir":
+            val = ok(ot.transform_direction(Vec3(v)))
+        elif kind == "thick":
+            x = fr(v[0])
+            val = ok([ot.transform_thickness(v[0])])
+        elif kind == "len":
+            val = ok([ot.transform_length(Vec3(v))])
+        elif kind == "lenr":
+            y = fr(v[1])
+            val = ok([ot.transform_length(Vec3(v), reflection=v[1])])
+        elif kind == "width":
+            w = r.choice([v[0], 0.0, 1e-13, -2.5, 1e-11])
+            x = fr(w)
+            val = ok([ot.transform_width(w)])
+        else:
+            x, y = frs(v[:2]), fr(v[2])
+            val = ok(ot.transform_2d_vertex(Vec2(v[:2]), v[2]))
+        ctx.hist("X1 OCSTransform kernels", kind)
+        req = "|".join(["ot", frs(m16), ("T," if t1 else "F,") + frs(f1), ("T," if t2 else "F,") + frs(f2), kind, x, y, val, "1/1000000000"])
+        out.append((req, "agree", any(v)))
+    return out
+
+
+def corr_extrusion(ctx):
+    from ezdxf.math import Matrix44, OCS, Vec3
+    from ezdxf.math.transformtools import transform_extrusion
+    r = ctx.rng("corr/extrusion")
+    mg = MG(r)
+    out = []
+    for _ in range(ctx.n(1000, 8000)):
+        n = vnorm(r.choice(EXTRUSIONS)) if r.random() < 0.8 else vnorm((_dy(r) + 0.0625, _dy(r), _dy(r)))
+        if near_threshold(n):
+            continue
+        k = r.random()
+        mr = mg.similarity() if k < 0.4 else mg.affine() if k < 0.7 else mg.plane(n, r.choice(["planesim", "shear", "stretch"]))
+        m = build_matrix(mr)
+        cl = classify(m, n)
+        fr_ = ocs_axes(n)
+        lx, ly = vdot(m_dir(m, fr_[0]), m_dir(m, fr_[0])), vdot(m_dir(m, fr_[1]), m_dir(m, fr_[1]))
+        if 1e-11 < abs(lx - ly) / max(lx, ly) < 1e-7 or 1e-11 < abs(lx - ly) < 1e-7 or abs(cl["det"]) < 1e-9:
+            ctx.hist("X2 transform_extrusion", "regenerated-in-decision-band")
+            continue
+        o = OCS(Vec3(n))
+        try:
+            ext, uni = transform_extrusion(Vec3(n), Matrix44(mat16(m)))
+            val = ok(ext, [1.0 if uni else 0.0])
+        except ZeroDivisionError:
+            val = "err ZeroDivisionError"
+        ctx.hist("X2 transform_extrusion", f"plane={cl['plane']} uniform={val.endswith(';1')}")
+        out.append(("|".join(["ext", ocs_str(o), frs(mat16(m)), val, "1/1000000000"]), "agree", o.transform))
+    return out
+
+
+def _cs(deg):
+    a = math.radians(deg)
+    return [math.cos(a), math.sin(a)]
+
+
+def corr_entities(ctx):
+    """control flow of Line / Circle / Arc / LWPolyline / Solid transform given the SAME OCSTransform data the real code built"""
+    from ezdxf.math import Matrix44, Vec3, NonUniformScalingError, arc_angle_span_deg
+    from ezdxf.math.transformtools import OCSTransform
+    r = ctx.rng("corr/entities")
+    eg, mg = EG(r), MG(r)
+    world = World()
+    out = []
+    for _ in range(ctx.n(1500, 10000)):
+        kind = r.choice(["line", "circle", "arc", "lw", "solid"])
+        rc = {"line": eg.line, "circle": eg.circle, "arc": eg.arc, "lw": eg.lwpolyline, "solid": eg.solid}[kind]()
+        n = recipe_extrusion(rc)
+        k = r.random()
+        mr = mg.similarity() if k < 0.45 else mg.affine() if k < 0.7 else mg.plane(n, r.choice(["planesim", "stretch", "shear"]))
+        m = build_matrix(mr)
+        cl = classify(m, n)
+        if cl.get("plane") == "band" or abs(cl["det"]) < 1e-9:
+            continue
+        if kind == "arc" and cl.get("plane") != "sim" and abs((rc["a"]["end_angle"] - rc["a"]["start_angle"]) % 360.0 - 180.0) < 1e-9:
+            # semicircle under a map that is no similarity of the plane: the code probes the direction 1 rad after the start,
+            # the model a rational direction; the two probes may answer differently (documented in Model/Transform.lean)
+            ctx.hist("X3 entity transform control flow", "skipped:semicircle-under-non-similarity")
+            continue
+        if world.n > 3000:
+            world = World()
+        e = build(world.layout(), rc)
+        d = e.dxf
+        M = Matrix44(mat16(m))
+        ms = frs(mat16(m))
+        opt = lambda name: fr(d.get(name)) if d.hasattr(name) else "n"  # noqa: E731
+        if kind == "line":
+            req = ["line", ms, frs(d.start), frs(d.end), opt("thickness"), frs(d.extrusion) if d.hasattr("extrusion") else "n"]
+            try:
+                e.transform(M)
+                val = ok(d.start, d.end, [d.thickness] if d.hasattr("thickness") else None, d.extrusion if d.hasattr("extrusion") else None)
+            except ZeroDivisionError:
+                val = "err ZeroDivisionError"
+        else:
+            ot = OCSTransform(Vec3(d.extrusion), M)
+            head = [ms, ocs_str(ot.old_ocs), ocs_str(ot.new_ocs)]
+            uni = "T" if ot.scale_uniform else "F"
+            try:
+                if kind == "circle":
+                    req = ["circle"] + head + [uni, frs(d.center), fr(d.radius), opt("thickness")]
+                    e.transform(M)
+                    val = ok(d.center, [d.radius], [d.thickness] if d.hasattr("thickness") else None)
+                elif kind == "arc":
+                    full = math.isclose(arc_angle_span_deg(d.start_angle, d.end_angle), 360.0)
+                    req = ["arc"] + head + [uni, frs(d.center), fr(d.radius), opt("thickness"), frs(_cs(d.start_angle)), frs(_cs(d.end_angle)),
+                                            "T" if full else "F"]
+                    e.transform(M)
+                    val = ok(d.center, [d.radius], [d.thickness] if d.hasattr("thickness") else None, _cs(d.start_angle), _cs(d.end_angle))
+                elif kind == "lw":
+                    pts = [tuple(p) for p in e.lwpoints]
+                    req = ["lw"] + head + [uni, fr(d.elevation), opt("const_width"), opt("thickness"), ";".join(frs(p) for p in pts)]
+                    e.transform(M)
+                    val = ok([d.elevation], [d.const_width] if d.hasattr("const_width") else None,
+                             [d.thickness] if d.hasattr("thickness") else None, *[tuple(p) for p in e.lwpoints])
+                else:
+                    names = [nm for nm in ("vtx0", "vtx1", "vtx2", "vtx3") if d.hasattr(nm)]
+                    req = ["solid"] + head + [opt("thickness"), ";".join(frs(d.get(nm)) for nm in names)]
+                    e.transform(M)
+                    val = ok([d.thickness] if d.hasattr("thickness") else None, *[d.get(nm) for nm in names])
+            except NonUniformScalingError:
+                val = "err NonUniformScalingError"
+        ctx.hist("X3 entity transform control flow", f"{kind}:{'err' if val.startswith('err') else 'ok'}:{cl.get('plane')}")
+        out.append(("|".join(req + [val, "1/100000000"]), "agree", not cl["sim3"] or cl["det"] < 0))
+    return out
+
+
+def corr_insert(ctx):
+    from ezdxf.math import Matrix44, OCS, Vec3, ABS_TOL
+    from ezdxf.math.transformtools import InsertCoordinateSystem, InsertTransformationError
+    r = ctx.rng("corr/insert")
+    eg, mg = EG(r), MG(r)
+    world = World()
+    out = []
+    for _ in range(ctx.n(1500, 10000)):
+        rc = eg.insert("LEAF")
+        a = rc["a"]
+        n = recipe_extrusion(rc)
+        k = r.random()
+        mr = mg.similarity() if k < 0.45 else mg.affine() if k < 0.7 else mg.plane(n, r.choice(["planesim", "stretch", "shear"]))
+        m = build_matrix(mr)
+        if abs(m_det(m)) < 1e-9:
+            continue
+        fr_ = ocs_axes(n)
+        rows = [vnorm(m_dir(m, ax)) for ax in fr_]
+        dots = [abs(vdot(rows[i], rows[j])) for i, j in ((0, 1), (0, 2), (1, 2))]
+        if any(ABS_TOL / 100 < x < ABS_TOL * 100 for x in dots):
+            ctx.hist("X4 InsertCoordinateSystem.transform / Insert.matrix44", "regenerated-in-decision-band")
+            continue
+        old = OCS(Vec3(n))
+        sc = (a["xscale"], a["yscale"], a["zscale"])
+        ics = InsertCoordinateSystem(Vec3(rc["insert"]), sc, a["rotation"], Vec3(n))
+        req = ["ins", frs(mat16(m)), ocs_str(old)]
+        try:
+            res = ics.transform(Matrix44(mat16(m)), ABS_TOL)
+            new = OCS(res.extrusion)
+            val = ok(res.insert, [res.scale_factor_x, res.scale_factor_y, res.scale_factor_z], _cs(res.rotation))
+        except InsertTransformationError:
+            new = OCS()
+            val = "err InsertTransformationError"
+        req += [ocs_str(new), fr(ABS_TOL), frs(rc["insert"]), frs(sc), frs(_cs(a["rotation"]))]
+        ctx.hist("X4 InsertCoordinateSystem.transform / Insert.matrix44", "ins:" + ("err" if val.startswith("err") else "ok"))
+        out.append(("|".join(req + [val, "1/100000000"]), "agree", a["rotation"] != 0.0 or "extrusion" in a))
+        # Insert.matrix44 of the untransformed reference (block LEAF has the base point (1, 0.5, 0))
+        if world.n > 3000:
+            world = World()
+        e = build(world.layout(), rc)
+        mat = list(e.matrix44())
+        req = ["imat", ocs_str(old), frs(rc["insert"]), frs(sc), frs(_cs(a["rotation"])), frs(world.base_of("LEAF"))]
+        ctx.hist("X4 InsertCoordinateSystem.transform / Insert.matrix44", "imat")
+        out.append(("|".join(req + [ok(mat), "1/1000000000"]), "agree", True))
+    return out
+
+
+def corr_nested(ctx):
+    """clean nested documents of POINT entities (no constellation of the listed INSERT findings, which the model of the
+    expansion deliberately does not copy: it is the specification the oracle tests against)"""
+    r = ctx.rng("corr/nested")
+    out = []
+    for _ in range(ctx.n(500, 4000)):
+        rec = gen_nested(r, clean=True)
+        for b in rec["blocks"]:
+            b["ents"] = [x for x in b["ents"] if x["t"] == "INSERT"] + [{"t": "POINT", "a": {"location": EG(r).p3()}} for _ in range(r.randint(1, 2))]
+        doc, top = build_nested(rec)
+        exp = []
+        expected_flat(doc, top, IDENT, set(), 0, exp)
+        if any(f for _, f, _ in exp):
+            ctx.hist("X5 nested references", "skipped:constellation-of-a-listed-finding")
+            continue
+
+        def tree(ins):
+            blk = doc.blocks.get(ins.dxf.name)
+            kids = [tree(e) if e.dxftype() == "INSERT" else "P " + frs(v3(e.dxf.location)) for e in blk]
+            return f"R {frs(list(ins.matrix44()))} {len(kids)} " + " ".join(kids)
+
+        def flat(ins, acc):
+            for ve in ins.virtual_entities():
+                if ve.dxftype() == "INSERT":
+                    flat(ve, acc)
+                else:
+                    acc.append(v3(ve.dxf.location))
+        pts = []
+        flat(top, pts)
+        ctx.hist("X5 nested references", f"depth{len(rec['blocks'])}")
+        out.append(("|".join(["nest", tree(top), ok(*(pts + pts)), "1/1000000000"]), "agree", len(rec["blocks"]) > 1))
+    return out
+
+
+def corr_upright(ctx):
+    from ezdxf.upright import upright
+    r = ctx.rng("corr/upright")
+    eg = EG(r)
+    world = World()
+    out = []
+    for _ in range(ctx.n(800, 6000)):
+        kind = r.choice(["circle", "arc", "solid", "lw", "ins"])
+        rc = {"circle": eg.circle, "arc": eg.arc, "solid": eg.solid, "lw": eg.lwpolyline, "ins": lambda: eg.insert("LEAF")}[kind]()
+        rc["a"]["extrusion"] = [0.0, 0.0, -1.0]
+        rc["a"].pop("const_width", None)
+        if world.n > 3000:
+            world = World()
+        e = build(world.layout(), rc)
+        d = e.dxf
+        opt = lambda name: fr(d.get(name)) if d.hasattr(name) else "n"  # noqa: E731
+        th = lambda: [d.thickness] if d.hasattr("thickness") else None  # noqa: E731
+        if kind == "circle":
+            req = ["up", "circle", frs(d.center), fr(d.radius), opt("thickness")]
+            upright(e)
+            val = ok(d.center, [d.radius], th())
+        elif kind == "arc":
+            req = ["up", "arc", frs(d.center), fr(d.radius), opt("thickness"), frs(_cs(d.start_angle)), frs(_cs(d.end_angle))]
+            upright(e)
+            val = ok(d.center, [d.radius], th(), _cs(d.start_angle), _cs(d.end_angle))
+        elif kind == "solid":
+            names = [nm for nm in ("vtx0", "vtx1", "vtx2", "vtx3") if d.hasattr(nm)]
+            req = ["up", "solid", opt("thickness"), ";".join(frs(d.get(nm)) for nm in names)]
+            upright(e)
+            val = ok(th(), *[d.get(nm) for nm in names])
+        elif kind == "lw":
+            req = ["up", "lw", fr(d.elevation), opt("thickness"), ";".join(frs(tuple(p)) for p in e.lwpoints)]
+            upright(e)
+            val = ok([d.elevation], th(), *[tuple(p) for p in e.lwpoints])
+        else:
+            sc = (d.xscale, d.yscale, d.zscale)
+            req = ["up", "ins", frs(d.insert), frs(sc), frs(_cs(d.rotation))]
+            upright(e)
+            val = ok(d.insert, [d.xscale, d.yscale, d.zscale], _cs(d.rotation))
+        ctx.hist("X6 upright", kind)
+        out.append(("|".join(req + [val, "1/1000000000"]), "agree", True))
+    return out
 
 
 def correspond(ctx):
-    pass
+    for stream, fn in (("X1 OCSTransform kernels", corr_kernels), ("X2 transform_extrusion", corr_extrusion),
+                       ("X3 entity transform control flow", corr_entities),
+                       ("X4 InsertCoordinateSystem.transform / Insert.matrix44", corr_insert),
+                       ("X5 nested references", corr_nested), ("X6 upright", corr_upright)):
+        ctx.correspond(stream, "C12", fn(ctx), build=DRIVER_DEPS)
